@@ -6,7 +6,7 @@
    ([ref_enc], [ref_dec]).  No proofs here: the model must still run (vm_compute
    correspondence against /repo) when a proof breaks.  Proofs: TyProofs.v. *)
 From Coq Require Import List String Ascii ZArith Bool Lia.
-From Verif Require Import Core.
+From Verif Require Import Core TupleIdx.
 Import ListNotations.
 Open Scope string_scope.
 Open Scope Z_scope.
@@ -22,6 +22,7 @@ Inductive sty :=
 | SSet (frozen: bool) (t: sty)
 | STupleVar (t: sty)
 | STupleFix (ts: list sty)
+| STupleU (pre: list sty) (mid: sty) (post: list sty)   (* Tuple[pre..., Unpack[mid], post...], mid = Tuple[t, ...] or Tuple[t1, ..., tk] *)
 | SDict (kt vt: sty)
 | SOpt (t: sty)
 | SData (c: string)
@@ -76,9 +77,22 @@ Inductive penc :=
 | ECopyDict
 | EDictComp (ke ve: penc)               (* {ke: ve for key, value in x.items()} *)
 | ETupleFix (es: list penc)             (* [e0(x[0]), e1(x[1]), ...] *)
+| ETupleU (plan: list aidx) (pre: list penc) (mid: penc) (post: list penc)
+                                        (* [e0(x[0]), ..., *emid(x[i:j]), ..., ek(x[-1])] with the index / slice plan of arg_indexes *)
 | EData (c: string)                     (* dataclass packer (plain Config) *)
 | ENamed (c: string)                    (* [e0(value[0]), e1(value[1]), ...] over the NamedTuple fields *)
 | ETyped (c: string).                   (* d = {}; d[k] = e(value[k]) for required keys; optional keys when present *)
+
+(* the index / slice descriptors computed by the arg_indexes loop of pack_tuple / unpack_tuple for
+   [u] plain arguments, one unpacked argument, [m] plain arguments.  Hand-written closed form;
+   TyK7.v proves it equal to the output of the loop as translated from /repo on every run
+   (kernel K7): [arg_indexes (repeat false u ++ true :: repeat false m) = Some (tu_plan u m)]. *)
+Definition tu_slice_hi (n i: Z) : option Z :=
+  if n =? 1 then None else if i <? n - 1 then Some (i + 1 - n) else None.
+Definition tu_plan (u m: nat) : list aidx :=
+  let n := Z.of_nat (u + 1 + m) in
+  (map AI (zrange 0 (Z.of_nat u)) ++ [ASl (Z.of_nat u) (tu_slice_hi n (Z.of_nat u))] ++
+   map (fun j => AI (j - n)) (zrange (Z.of_nat u + 1) n))%list.
 
 Definition is_id (e: penc) : bool := match e with EId => true | _ => false end.
 
@@ -99,6 +113,8 @@ Fixpoint cp (cbn: bool) (t: sty) {struct t} : penc :=
   | SSet _ t' => seq_expr false (cp true t')
   | STupleVar t' => EListComp (cp true t')
   | STupleFix ts => ETupleFix (map (cp true) ts)
+  | STupleU pre mid post =>
+      ETupleU (tu_plan (List.length pre) (List.length post)) (map (cp true) pre) (cp true mid) (map (cp true) post)
   | SDict kt vt => map_expr (cp true kt) (cp true vt)
   | SOpt t' => let e := cp cbn t' in if cbn then EOpt e else e
   | SData c => EData c
@@ -206,6 +222,107 @@ Definition td_nondict (konst: sfield -> option pv) (fds: list sfield) : res pv :
   r <- td_go (fun (_: sfield) (_: unit) => Exn XTypeError) konst XTypeError [] (td_order fds) ;;
   if existsb (fun f => f.(sf_opt)) fds then Exn XAttributeError else Ok (VDict r).
 
+Section OMapM.
+  Context {A B: Type} (f: A -> option B).
+  Fixpoint omapM (l: list A) : option (list B) :=
+    match l with
+    | [] => Some []
+    | x :: r => match f x with
+                | Some y => match omapM r with Some ys => Some (y :: ys) | None => None end
+                | None => None end
+    end.
+End OMapM.
+
+(* ------------------------------------------------------------------ *)
+(* tuples with an unpacked segment: positions read through index / slice descriptors.
+   [items = None]: the value is not subscriptable (only constant positions survive). *)
+Section TuWalk.
+  Context {T X: Type}.
+  Variable run : T -> X -> res pv.
+  Variable konst : T -> option pv.
+  Variable tail : list T -> res (list pv).       (* a fixed segment longer than its slice *)
+
+  Definition tu_at (items: option (list X)) (a: aidx) (d: T) : res pv :=
+    match konst d with
+    | Some c => Ok c
+    | None =>
+        match items with
+        | None => Exn XTypeError
+        | Some l =>
+            match a with
+            | AI i => match nth_signed l i with Some x => run d x | None => Exn XIndexError end
+            | ASl _ _ => Exn XTypeError          (* descriptor of the wrong shape: never produced by [tu_plan] *)
+            end
+        end
+    end.
+
+  Fixpoint tu_ones (items: option (list X)) (plan: list aidx) (ds: list T) {struct ds} : res (list pv) :=
+    match ds, plan with
+    | [], [] => Ok []
+    | d :: ds', a :: plan' =>
+        match tu_at items a d with
+        | Ok y => match tu_ones items plan' ds' with Ok ys => Ok (y :: ys) | Exn e => Exn e end
+        | Exn e => Exn e end
+    | _, _ => Exn XTypeError
+    end.
+
+  (* exact-length positional walk (the documented form: one item per type) *)
+  Fixpoint pos_walk (ds: list T) (xs: list X) {struct ds} : res (list pv) :=
+    match ds, xs with
+    | [], [] => Ok []
+    | d :: ds', x :: xs' =>
+        match (match konst d with Some c => Ok c | None => run d x end) with
+        | Ok y => match pos_walk ds' xs' with Ok ys => Ok (y :: ys) | Exn e => Exn e end
+        | Exn e => Exn e end
+    | _, _ => Exn XIndexError
+    end.
+
+  (* a fixed tuple read from a slice: surplus ignored, shortage = [tail] *)
+  Fixpoint fix_walk (ds: list T) (l: list X) {struct ds} : res (list pv) :=
+    match ds, l with
+    | [], _ => Ok []
+    | _ :: _, [] => tail ds
+    | d :: ds', x :: l' =>
+        match run d x with
+        | Ok y => match fix_walk ds' l' with Ok ys => Ok (y :: ys) | Exn e => Exn e end
+        | Exn e => Exn e end
+    end.
+
+  (* the unpacked segment applied to its slice *)
+  Definition mid_var (u: T) (sl: option (list X)) : res (list pv) :=
+    match sl with Some s => mapM (run u) s | None => Exn XTypeError end.
+  Definition mid_fix (us: list T) (sl: option (list X)) : res (list pv) :=
+    match omapM konst us with
+    | Some cs => Ok cs                                   (* constant segment ("*()" is dropped): no slicing *)
+    | None => match sl with Some s => fix_walk us s | None => Exn XTypeError end
+    end.
+
+  (* generated form: [u0(x[i0]), ..., *umid(x[i:j]), ..., uk(x[ik])] *)
+  Definition tu_walk (items: option (list X)) (plan: list aidx) (pre post: list T)
+                     (mid: option (list X) -> res (list pv)) : res (list pv) :=
+    let np := List.length pre in
+    a <- tu_ones items (firstn np plan) pre ;;
+    m <- match nth_error plan np with
+         | Some (ASl i j) => mid (option_map (fun l => slice_list l i j) items)
+         | _ => Exn XTypeError end ;;
+    b <- tu_ones items (skipn (S np) plan) post ;;
+    Ok (a ++ m ++ b)%list.
+
+  (* documented form, for a sequence with at least as many items as head + tail: the head items,
+     what lies between head and tail for the unpacked segment, the tail items *)
+  Definition tu_split (l: list X) (pre post: list T) (mid: option (list X) -> res (list pv)) : res (list pv) :=
+    let np := List.length pre in
+    let ns := List.length post in
+    let L := List.length l in
+    a <- pos_walk pre (firstn np l) ;;
+    m <- mid (Some (firstn (L - np - ns) (skipn np l))) ;;
+    b <- pos_walk post (skipn (L - ns) l) ;;
+    Ok (a ++ m ++ b)%list.
+End TuWalk.
+
+(* the documented reference rejects a sequence shorter than head + tail *)
+Definition XTooFew : exn := XOther "too few items".
+
 (* fuel exhausted while a str input descends through NamedTuple classes (see [uk_str]) *)
 Definition XRecursion : exn := XOther "RecursionError".
 
@@ -248,6 +365,16 @@ Section Run.
                       end) es l ;;
               Ok (VList r)
           | _ => Exn XTypeError end
+      | ETupleU plan pre emid post =>
+          let run := fun (e': penc) (dx: penc -> res pv) => dx e' in
+          let items : option (list (penc -> res pv)) :=
+              match v with VTuple l | VList l => Some (map (fun x => pk x) l) | _ => None end in
+          r <- tu_walk run (fun _ => None) items plan pre post
+                 (match emid with
+                  | EListComp e' => mid_var run e'
+                  | ETupleFix es => mid_fix run (fun _ => None) (fun _ => Exn XIndexError) es
+                  | _ => fun _ => Exn XTypeError end) ;;
+          Ok (VList r)
       | EData c =>
           match v with
           | VObj c' fs =>
@@ -323,6 +450,20 @@ Section Run.
                       end) ts l ;;
               Ok (VList r)
           | _ => Exn XTypeError end
+      | STupleU pre mid post =>
+          (* the head items, the items of the unpacked segment, the tail items, each converted by its type *)
+          match v with
+          | VTuple l | VList l =>
+              if (List.length l <? List.length pre + List.length post)%nat then Exn XIndexError
+              else
+                let run := fun (t': sty) (dx: sty -> res pv) => dx t' in
+                r <- tu_split run (fun _ => None) (map (fun x => ref_enc x) l) pre post
+                       (match mid with
+                        | STupleVar t' => mid_var run t'
+                        | STupleFix ts => mid_fix run (fun _ => None) (fun _ => Exn XIndexError) ts
+                        | _ => fun _ => Exn XTypeError end) ;;
+                Ok (VList r)
+          | _ => Exn XTypeError end
       | SDict kt vt =>
           match v with
           | VDict kvs =>
@@ -396,6 +537,8 @@ Section Run.
   | USetComp (frozen: bool) (u: pdec)
   | UTupleVar (u: pdec)
   | UTupleFix (us: list pdec)           (* tuple([u0(v[0]), ...]) *)
+  | UTupleU (plan: list aidx) (pre: list pdec) (mid: pdec) (post: list pdec)
+                                        (* tuple([u0(v[0]), ..., *umid(v[i:j]), ..., uk(v[-1])]) *)
   | UDictComp (ku vu: pdec)
   | UData (c: string)
   | UNamed (c: string)                  (* C(u0(value[0]), ...) / the try-append-except IndexError function when C has defaults *)
@@ -413,6 +556,8 @@ Section Run.
     | SSet fr t' => USetComp fr (cu true t')
     | STupleVar t' => UTupleVar (cu true t')
     | STupleFix ts => UTupleFix (map (cu true) ts)
+    | STupleU pre mid post =>
+        UTupleU (tu_plan (List.length pre) (List.length post)) (map (cu true) pre) (cu true mid) (map (cu true) post)
     | SDict kt vt => UDictComp (cu true kt) (cu true vt)
     | SOpt t' => let u := cu cbn t' in if cbn then UOpt u else u
     | SData c => UData c
@@ -436,13 +581,36 @@ Section Run.
     | SNone => Ok VNone
     end.
 
-  (* a fixed tuple whose remaining positions are all None-typed (or empty-tuple-typed) does not
-     read the missing items: the generated expression for such a position is a constant *)
-  Definition const_dec (u: pdec) : option pv :=
-    match u with
-    | UScalar SNone => Some VNone           (* expression "None" *)
-    | UTupleFix [] => Some (VTuple [])      (* expression "()" *)
-    | _ => None end.
+  (* constant expressions: the generated unpacker expression of a position does not mention its
+     input, so the item / key is never read -- "None" for NoneType, "tuple([c0, c1, ...])" resp. "()"
+     for a fixed tuple of constants, "C(c0, c1, ...)" for a NamedTuple class WITHOUT defaults all
+     of whose fields are constants (with defaults the expression is a helper call on value[i];
+     a TypedDict always is a method call on value[...]; Optional[...] tests value[i]).  Nested
+     arbitrarily, through the class table: fuel as in [uk_str], started with [List.length E]. *)
+  Fixpoint const_dec_n (n: nat) {struct n} : pdec -> option pv :=
+    fix on_u (u: pdec) {struct u} : option pv :=
+      match u with
+      | UScalar SNone => Some VNone
+      | UTupleFix us => match omapM on_u us with Some cs => Some (VTuple cs) | None => None end
+      | UTupleU _ pre umid post =>
+          match omapM on_u pre, (match umid with UTupleFix us => omapM on_u us | _ => None end), omapM on_u post with
+          | Some a, Some m, Some b => Some (VTuple (a ++ m ++ b)%list)
+          | _, _, _ => None end
+      | UNamed c =>
+          match n with
+          | O => None
+          | S n' =>
+              match sfind E KNamed c with
+              | None => None
+              | Some k =>
+                  if has_default k.(sc_fields) then None
+                  else match omapM (fun f => const_dec_n n' (cu true f.(sf_ty))) k.(sc_fields) with
+                       | Some cs => Some (VNT c cs)
+                       | None => None end
+              end
+          end
+      | _ => None end.
+  Definition const_dec (u: pdec) : option pv := const_dec_n (List.length E) u.
   Fixpoint none_tail (us: list pdec) : res (list pv) :=
     match us with
     | [] => Ok []
@@ -480,6 +648,13 @@ Section Run.
                 | _ :: _, [] => none_tail us
                 | u' :: us', x :: l' => y <- on_u u' x ;; ys <- go us' l' ;; Ok (y :: ys)
                 end) us (utf8_chars s) ;;
+        Ok (VTuple r)
+    | UTupleU plan pre umid post =>
+        r <- tu_walk on_u const_dec (Some (utf8_chars s)) plan pre post
+               (match umid with
+                | UTupleVar u' => mid_var on_u u'
+                | UTupleFix us => mid_fix on_u const_dec none_tail us
+                | _ => fun _ => Exn XTypeError end) ;;
         Ok (VTuple r)
     | UDictComp _ _ => Exn XAttributeError
     | UData c => match sfind E KData c with
@@ -545,6 +720,20 @@ Section Run.
               Ok (VTuple r)
           | VStr s => uk_str (List.length E) u s
           | _ => r <- none_tail us ;; Ok (VTuple r)     (* only constant positions never index the value *)
+          end
+      | UTupleU plan pre umid post =>
+          match d with
+          | VStr s => uk_str (List.length E) u s
+          | _ =>
+              let run := fun (u': pdec) (dx: pdec -> res pv) => dx u' in
+              let items : option (list (pdec -> res pv)) :=
+                  match d with VList l | VTuple l => Some (map (fun x => uk x) l) | _ => None end in
+              r <- tu_walk run const_dec items plan pre post
+                     (match umid with
+                      | UTupleVar u' => mid_var run u'
+                      | UTupleFix us => mid_fix run const_dec none_tail us
+                      | _ => fun _ => Exn XTypeError end) ;;
+              Ok (VTuple r)
           end
       | UDictComp ku vu =>
           match d with
@@ -625,11 +814,31 @@ Section Run.
      scalar, canonical concrete container with every element converted, surplus tuple
      items and unknown keys ignored; iteration semantics of foreign inputs (a str
      iterates its characters, a dict its keys). *)
-  Definition const_ty (t: sty) : option pv :=
-    match t with
-    | SNoneT => Some VNone
-    | STupleFix [] => Some (VTuple [])
-    | _ => None end.
+  (* types whose constructor takes no information from the input (see [const_dec_n]) *)
+  Fixpoint const_ty_n (n: nat) {struct n} : sty -> option pv :=
+    fix on_t (t: sty) {struct t} : option pv :=
+      match t with
+      | SNoneT => Some VNone
+      | STupleFix ts => match omapM on_t ts with Some cs => Some (VTuple cs) | None => None end
+      | STupleU pre mid post =>
+          match omapM on_t pre, (match mid with STupleFix ts => omapM on_t ts | _ => None end), omapM on_t post with
+          | Some a, Some m, Some b => Some (VTuple (a ++ m ++ b)%list)
+          | _, _, _ => None end
+      | SNamed c =>
+          match n with
+          | O => None
+          | S n' =>
+              match sfind E KNamed c with
+              | None => None
+              | Some k =>
+                  if has_default k.(sc_fields) then None
+                  else match omapM (fun f => const_ty_n n' f.(sf_ty)) k.(sc_fields) with
+                       | Some cs => Some (VNT c cs)
+                       | None => None end
+              end
+          end
+      | _ => None end.
+  Definition const_ty (t: sty) : option pv := const_ty_n (List.length E) t.
   Fixpoint none_tail_t (ts: list sty) : res (list pv) :=
     match ts with
     | [] => Ok []
@@ -640,8 +849,29 @@ Section Run.
 
   Definition konst_t (f: sfield) : option pv := const_ty f.(sf_ty).
 
+  (* Two readings of "tuple with an unpacked segment":
+     [strict = true]  the documented one: a sequence shorter than head + tail is an error
+                      ([XTooFew]); otherwise head items / middle / tail items ([tu_split]);
+     [strict = false] what the generated code does: every position is read through the index /
+                      slice plan, so a short sequence yields overlapping reads (known finding
+                      C03/unpacked-tuple-short-input).
+     The two agree wherever the strict one does not say [XTooFew] (TyProofs.strict_or_same). *)
+  Section Mode.
+  Variable strict : bool.
+
+  Definition tu_ref {X} (run: sty -> X -> res pv) (tail: list sty -> res (list pv)) (l: list X)
+                    (pre: list sty) (mid: sty) (post: list sty) : res (list pv) :=
+    let midf := match mid with
+                | STupleVar t' => mid_var run t'
+                | STupleFix ts => mid_fix run const_ty tail ts
+                | _ => fun _ => Exn XTypeError end in
+    if strict then
+      if (List.length l <? List.length pre + List.length post)%nat then Exn XTooFew
+      else tu_split run const_ty l pre post midf
+    else tu_walk run const_ty (Some l) (tu_plan (List.length pre) (List.length post)) pre post midf.
+
   (* fuel: as for [uk_str] *)
-  Fixpoint ref_dec_str (n: nat) {struct n} : sty -> string -> res pv :=
+  Fixpoint ref_dec_str_g (n: nat) {struct n} : sty -> string -> res pv :=
     fix on_t (t: sty) {struct t} : string -> res pv := fun s =>
     match t with
     | SAny => Ok (VStr s)
@@ -665,6 +895,8 @@ Section Run.
                 | t' :: ts', x :: l' => y <- on_t t' x ;; ys <- go ts' l' ;; Ok (y :: ys)
                 end) ts (utf8_chars s) ;;
         Ok (VTuple r)
+    | STupleU pre mid post =>
+        r <- tu_ref on_t none_tail_t (utf8_chars s) pre mid post ;; Ok (VTuple r)
     | SDict _ _ => Exn XAttributeError
     | SOpt t' => on_t t' s
     | SData c => match sfind E KData c with
@@ -677,7 +909,7 @@ Section Run.
             match n with
             | O => Exn XRecursion
             | S n' =>
-                r <- nt_items (fun f x => ref_dec_str n' f.(sf_ty) x) konst_t
+                r <- nt_items (fun f x => ref_dec_str_g n' f.(sf_ty) x) konst_t
                               (nt_exhausted (has_default k.(sc_fields))) k.(sc_fields) (utf8_chars s) ;;
                 Ok (VNT c r)
             end
@@ -688,7 +920,7 @@ Section Run.
         | Some k => td_nondict konst_t k.(sc_fields) end
     end.
 
-  Fixpoint ref_dec (d: pv) {struct d} : sty -> res pv :=
+  Fixpoint ref_dec_g (d: pv) {struct d} : sty -> res pv :=
     fix on_t (t: sty) {struct t} : res pv :=
       match t with
       | SAny => Ok d
@@ -702,24 +934,24 @@ Section Run.
       | SEnum e => mn <- lift (P.(p_enum_of) e d) ;; Ok (VEnum e mn)
       | SList t' =>
           match d with
-          | VList l | VTuple l | VSet _ l => r <- mapM (fun x => ref_dec x t') l ;; Ok (VList r)
-          | VDict kvs => r <- mapM (fun p => match p with (k, _) => ref_dec k t' end) kvs ;; Ok (VList r)
-          | VStr s => ref_dec_str (List.length E) t s
+          | VList l | VTuple l | VSet _ l => r <- mapM (fun x => ref_dec_g x t') l ;; Ok (VList r)
+          | VDict kvs => r <- mapM (fun p => match p with (k, _) => ref_dec_g k t' end) kvs ;; Ok (VList r)
+          | VStr s => ref_dec_str_g (List.length E) t s
           | _ => Exn XTypeError end
       | SSet fr t' =>
           match d with
           | VList l | VTuple l | VSet _ l =>
-              r <- mapM (fun x => ref_dec x t') l ;;
+              r <- mapM (fun x => ref_dec_g x t') l ;;
               if forallb hashable r then Ok (VSet fr (set_of_list r)) else Exn XTypeError
-          | VDict kvs => r <- mapM (fun p => match p with (k, _) => ref_dec k t' end) kvs ;;
+          | VDict kvs => r <- mapM (fun p => match p with (k, _) => ref_dec_g k t' end) kvs ;;
               if forallb hashable r then Ok (VSet fr (set_of_list r)) else Exn XTypeError
-          | VStr s => ref_dec_str (List.length E) t s
+          | VStr s => ref_dec_str_g (List.length E) t s
           | _ => Exn XTypeError end
       | STupleVar t' =>
           match d with
-          | VList l | VTuple l | VSet _ l => r <- mapM (fun x => ref_dec x t') l ;; Ok (VTuple r)
-          | VDict kvs => r <- mapM (fun p => match p with (k, _) => ref_dec k t' end) kvs ;; Ok (VTuple r)
-          | VStr s => ref_dec_str (List.length E) t s
+          | VList l | VTuple l | VSet _ l => r <- mapM (fun x => ref_dec_g x t') l ;; Ok (VTuple r)
+          | VDict kvs => r <- mapM (fun p => match p with (k, _) => ref_dec_g k t' end) kvs ;; Ok (VTuple r)
+          | VStr s => ref_dec_str_g (List.length E) t s
           | _ => Exn XTypeError end
       | STupleFix ts =>
           match d with
@@ -728,17 +960,32 @@ Section Run.
                       match ts, l with
                       | [], _ => Ok []
                       | _ :: _, [] => none_tail_t ts
-                      | t' :: ts', x :: l' => y <- ref_dec x t' ;; ys <- go ts' l' ;; Ok (y :: ys)
+                      | t' :: ts', x :: l' => y <- ref_dec_g x t' ;; ys <- go ts' l' ;; Ok (y :: ys)
                       end) ts l ;;
               Ok (VTuple r)
-          | VStr s => ref_dec_str (List.length E) t s
+          | VStr s => ref_dec_str_g (List.length E) t s
           | _ => r <- none_tail_t ts ;; Ok (VTuple r)
+          end
+      | STupleU pre mid post =>
+          match d with
+          | VList l | VTuple l =>
+              r <- tu_ref (fun (t': sty) (dx: sty -> res pv) => dx t') none_tail_t (map (fun x => ref_dec_g x) l) pre mid post ;;
+              Ok (VTuple r)
+          | VStr s => ref_dec_str_g (List.length E) t s
+          | _ =>
+              (* not subscriptable: only constant positions never index the value *)
+              r <- tu_walk (fun (t': sty) (dx: sty -> res pv) => dx t') const_ty None
+                     (tu_plan (List.length pre) (List.length post)) pre post
+                     (match mid with
+                      | STupleFix ts => mid_fix (fun (t': sty) (dx: sty -> res pv) => dx t') const_ty none_tail_t ts
+                      | _ => fun _ => Exn XTypeError end) ;;
+              Ok (VTuple r)
           end
       | SDict kt vt =>
           match d with
           | VDict kvs =>
               r <- mapM (fun p => match p with (k, x) =>
-                                    k' <- ref_dec k kt ;; x' <- ref_dec x vt ;;
+                                    k' <- ref_dec_g k kt ;; x' <- ref_dec_g x vt ;;
                                     if hashable k' then Ok (k', x') else Exn XTypeError end) kvs ;;
               Ok (VDict (dict_of_pairs r))
           | _ => Exn XAttributeError end
@@ -750,7 +997,7 @@ Section Run.
               match d with
               | VDict kvs =>
                   let entries : list (pv * (pv * (sty -> res pv))) :=
-                      map (fun p => match p with (key, x) => (key, (x, ref_dec x)) end) kvs in
+                      map (fun p => match p with (key, x) => (key, (x, ref_dec_g x)) end) kvs in
                   r <- (fix go (fds: list sfield) : res (list (string * pv)) :=
                           match fds with
                           | [] => Ok []
@@ -770,7 +1017,7 @@ Section Run.
                               tl <- go rest ;; Ok ((f.(sf_name), y) :: tl)
                           end) k.(sc_fields) ;;
                   Ok (VObj c r)
-              | VStr s => ref_dec_str (List.length E) t s
+              | VStr s => ref_dec_str_g (List.length E) t s
               | _ => Exn XValueError
               end
           end
@@ -783,10 +1030,10 @@ Section Run.
           | Some k =>
               match d with
               | VList l | VTuple l =>
-                  r <- nt_items (fun f x => ref_dec x f.(sf_ty)) konst_t
+                  r <- nt_items (fun f x => ref_dec_g x f.(sf_ty)) konst_t
                                 (nt_exhausted (has_default k.(sc_fields))) k.(sc_fields) l ;;
                   Ok (VNT c r)
-              | VStr s => ref_dec_str (List.length E) t s
+              | VStr s => ref_dec_str_g (List.length E) t s
               | _ => r <- nt_tail konst_t (fun _ => Exn XTypeError) k.(sc_fields) ;; Ok (VNT c r)
               end
           end
@@ -798,7 +1045,7 @@ Section Run.
               match d with
               | VDict kvs =>
                   let entries : list (pv * (sty -> res pv)) :=
-                      map (fun p => match p with (key, x) => (key, ref_dec x) end) kvs in
+                      map (fun p => match p with (key, x) => (key, ref_dec_g x) end) kvs in
                   r <- td_go (fun f dx => dx f.(sf_ty)) konst_t XKeyError
                              entries (td_order k.(sc_fields)) ;;
                   Ok (VDict r)
@@ -806,4 +1053,12 @@ Section Run.
               end
           end
       end.
+  End Mode.
 End Run.
+
+(* the documented reference and the reading the generated code implements *)
+Notation ref_dec E P := (ref_dec_g E P true).
+Notation ref_dec_l E P := (ref_dec_g E P false).
+Notation ref_dec_str E P := (ref_dec_str_g E P true).
+Notation ref_dec_str_l E P := (ref_dec_str_g E P false).
+
